@@ -21,3 +21,14 @@ func VerifRoute(h core.EventHandler, typ codec.Command, slot int32) (addr string
 // VerifResetAuthCmd clears the package-level AUTH command so that a harness can
 // boot several servers with different passwords in one process.
 func VerifResetAuthCmd() { authCmd = "" }
+
+// VerifResetScratch empties the package-level scratch slices (`routed`, `liveSlaves`), as they are
+// when the process starts: a harness that boots many servers in one process starts each of them
+// the way a fresh process would.
+func VerifResetScratch() {
+	for i := range routed {
+		routed[i] = routedFrag{}
+	}
+	routed = routed[:0]
+	liveSlaves = liveSlaves[:0]
+}
